@@ -42,6 +42,35 @@ CLAIMS = {
     },
 }
 
+CLAIMS["C05"] = {
+    "engine": "E2-mirsym",
+    "design_ref": "DESIGN.md §1 C05",
+    "technique": "symbolic execution of the number scanner's MIR with z3 (one-step loop induction, bit-vector and "
+                 "IEEE queries), counterexamples replayed natively against a big-integer reference",
+    "text": "For the nine number-scanner functions the solver decides, for every accumulator / radix / next byte / "
+            "EOF / I/O error: digit classification, res*r+d exactness, the overflow exit condition, sign and range "
+            "mapping of parse_num_tail (-0, -2^63, 2^63), digit counting of over-long integers in their own radix, "
+            "(sig, exp) bookkeeping of fraction and exponent digits, saturation, never-inf/NaN of both float back ends, "
+            "exactness of the fast path for sig<=2^53, |exp|<=22, and the compiled POW10 table bits; both feature "
+            "configurations.",
+    "note": "Loops are cut at their headers (arbitrary loop state, invariant stated per claim) so digit counts are "
+            "unbounded but inputs longer than 2^30 digits are excluded (i32 exponent counter). Trusted: rustc's MIR dump, "
+            "the mirsym executor (validated on every run against the native build on 27 literals), z3, IEEE single-"
+            "operation axioms (checked at half precision), the contracts of core's str::parse::<f64> and itoa. The "
+            "2^-50 accuracy clause outside the exact region and ryu are outside the claim.",
+}
+CLAIMS["C15"] = {
+    "engine": "E1-kani",
+    "design_ref": "DESIGN.md §1 C15",
+    "technique": "bounded model checking (Kani/CBMC) of the real accessors on directly constructed cons chains",
+    "text": "For every chain of 0..=4 cells with symbolic payloads, 7 tail kinds and every usize index the solver "
+            "decides list_iter / Cons::iter / get / Index / to_ref_vec / is_list / is_dotted_list and alist lookup by "
+            "name (0..=3 entries, duplicate keys, non-pair entries, key kinds) against a Vec model; non-list targets of "
+            "every kind never panic.",
+    "note": "Chains longer than 4 cells, Value::append/list, the consuming iterator and the cloning conversions are "
+            "outside (CBMC runs out of memory on drop/clone glue of Value; measured). Trusted: Kani/CBMC.",
+}
+
 NOT_APPLICABLE = {
     "C09": "each point of the quantifier is a Rust program that must be compiled; the macro consumes proc_macro2 "
            "token trees produced by rustc's lexer; Kani ICEs compiling proc_macro2 and the code is String/Vec/"
